@@ -34,12 +34,13 @@ type segment struct {
 // Faults describes at which point the transport starts failing. Zero values
 // disable a fault. Counters are 1-based.
 type Faults struct {
-	ReadErrAt     int  // the k-th Read call returns ErrInjected (and every later one)
-	ReadShortAt   int  // the k-th Read call returns at most 1 byte
-	WriteErrAt    int  // the k-th Write call fails (and every later one)
-	WriteShort    bool // the failing write first accepts half of its bytes
-	FailAfterRead int  // after this many bytes were read every Read and Write fails
-	Timeout       bool // the injected failures are of the timeout kind (net.Error with Timeout() == true): an expired deadline, persistent like the others
+	ReadErrAt      int  // the k-th Read call returns ErrInjected (and every later one)
+	ReadShortAt    int  // the k-th Read call returns at most 1 byte
+	WriteErrAt     int  // the k-th Write call fails (and every later one)
+	WriteShort     bool // the failing write first accepts half of its bytes
+	FailAfterRead  int  // after this many bytes were read every Read and Write fails
+	WriteErrOnceAt int  // the k-th Write call fails (nothing is written), every other write succeeds
+	Timeout        bool // the injected failures are of the timeout kind (net.Error with Timeout() == true): an expired deadline, persistent like the others
 }
 
 // timeoutErr is what an expired deadline looks like.
@@ -177,6 +178,10 @@ func (c *Conn) Write(p []byte) (int, error) {
 	if c.closed {
 		c.WritesAfterStop++
 		return 0, net.ErrClosed
+	}
+	if c.F.WriteErrOnceAt > 0 && c.Writes == c.F.WriteErrOnceAt {
+		c.cond.Broadcast()
+		return 0, c.injected()
 	}
 	if c.failed || (c.F.WriteErrAt > 0 && c.Writes >= c.F.WriteErrAt) ||
 		(c.F.FailAfterRead > 0 && c.BytesRead >= int64(c.F.FailAfterRead)) {
